@@ -28,6 +28,10 @@ pub struct DirCase {
     /// stored-byte corruption applied after building: (slot index, byte index, xor mask)
     pub flips: Vec<(u32, u8, u8)>,
     pub seed: u64,
+    /// this many deleted slots are inserted behind the first two slots: the directory reaches the largest legal
+    /// size (65536 slots) with live entries in its last cluster
+    #[serde(default)]
+    pub pad_deleted: u32,
 }
 
 fn hex(b: &[u8]) -> String {
@@ -323,7 +327,13 @@ pub fn gen_case(seed: u64, thorough: bool) -> DirCase {
     v.root_cluster = if fat32 { *r.pick(&[2u32, 2, 7, 300]) } else { 0 };
     v.tree.seed = r.next_u64();
     let place = if r.chance(1, 2) { 0 } else { 1 };
-    let fragmented = r.chance(1, 2);
+    let mut fragmented = r.chance(1, 2);
+    // now and then a sub-directory of the largest legal size
+    let max_dir = place == 1 && r.chance(1, 250);
+    if max_dir {
+        fragmented = false;
+        v.clusters = v.clusters.max(2000 + 65536 / (16 * v.spc as u32) + 16);
+    }
     // build once to get the slots (the builder needs the volume for sub-directory clusters)
     let (slots, _) = build_slots(&v, place, fragmented, seed, thorough);
     let mut bufs: Vec<u16> = vec![780, 0, 1, 2, 3, 4];
@@ -336,7 +346,17 @@ pub fn gen_case(seed: u64, thorough: bool) -> DirCase {
             flips.push((r.below(slots.len().max(1) as u64) as u32, r.below(32) as u8, 1u8 << r.below(8)));
         }
     }
-    DirCase { vol: v, place, fragmented, slots: slots.iter().map(|s| hex(s)).collect(), bufs, flips, seed }
+    let mut slots = slots;
+    let mut pad_deleted = 0;
+    if max_dir {
+        // the generated slots must not end the directory early: keep what lies before the first end marker
+        if let Some(p) = slots.iter().position(|s| s[0] == 0) {
+            slots.truncate(p);
+        }
+        pad_deleted = 65536u32.saturating_sub(slots.len() as u32);
+        bufs.truncate(2);
+    }
+    DirCase { vol: v, place, fragmented, slots: slots.iter().map(|s| hex(s)).collect(), bufs, flips, seed, pad_deleted }
 }
 
 fn build_slots(v: &VolSpec, place: u8, _fragmented: bool, seed: u64, thorough: bool) -> (Vec<[u8; 32]>, u32) {
@@ -377,6 +397,16 @@ pub fn build(case: &DirCase) -> (Image, Geom, DirLoc, u8) {
             s[bi as usize % 32] ^= m;
         }
     }
+    if case.pad_deleted > 0 {
+        let mut d = [0u8; 32];
+        d[0] = 0xE5;
+        d[1..11].copy_from_slice(b"ADPADPADPA");
+        d[11] = 0x20;
+        let at = slots.len().min(2);
+        let tail = slots.split_off(at);
+        slots.extend(std::iter::repeat(d).take(case.pad_deleted as usize));
+        slots.extend(tail);
+    }
     let mut fr = Rng::new(case.seed ^ 0xF4A6);
     let per = 16 * g.spc as usize;
     let loc;
@@ -387,7 +417,7 @@ pub fn build(case: &DirCase) -> (Image, Geom, DirLoc, u8) {
         loc = DirLoc::Fat16Root;
     } else {
         // a chain long enough for the slots (+ sometimes an extra cluster)
-        let nclus = ((slots.len() + per - 1) / per).max(1) + if fr.chance(1, 4) { 1 } else { 0 };
+        let nclus = ((slots.len() + per - 1) / per).max(1) + if fr.chance(1, 4) && case.pad_deleted == 0 { 1 } else { 0 };
         let first = if case.place == 0 { g.root_cluster } else { 900 };
         let mut chain = vec![first];
         b.next_free = 2000;
@@ -432,6 +462,9 @@ pub fn dir_eval(prop: &'static str, case: &DirCase) -> CaseOutcome {
     let (slots, _chain, cerr) = fatspec::dir_slots(&img, &g, &fat, loc);
     let ents = fatspec::live_entries(&slots, g.fat32);
     let mut probes = Probes::default();
+    if slots.len() >= 65536 {
+        probes.hit("directory_of_65536_slots");
+    }
     let mut viols: Vec<Violation> = Vec::new();
     let mut h = 0xcbf29ce484222325u64;
     let clock = SimClock::new(0);
